@@ -253,6 +253,16 @@ func c25Gen(t *rapid.T) srcCase {
 	n := 1 + gen.Uniform(t, 8, "nstmt")
 	havePkg := false
 	for i := 0; i < n; i++ {
+		if gen.Pct(t, 4, "longcomment") {
+			// a comment longer than any plausible read buffer, whose tail looks like source
+			fill := strings.Repeat(gen.Pick(t, []string{"x", "lorem ipsum ", "=-"}, "fill"), 1+gen.Pick(t, []int{4090, 4100, 8200, 70000}, "filllen")/2)
+			tail := gen.Pick(t, []string{" it's done", " \"unterminated", "; import \"ghost.proto\"; package ghost;", " */ }"}, "longtail")
+			if gen.Pct(t, 70, "linecomment") {
+				toks = append(toks, "//"+fill+tail+"\n")
+			} else {
+				toks = append(toks, "/*"+fill+strings.ReplaceAll(tail, "*/", "* /")+"*/")
+			}
+		}
 		switch gen.Uniform(t, 12, "stmt") {
 		case 0, 1, 2, 3:
 			toks = append(toks, "import")
